@@ -23,3 +23,5 @@ func Hex(b []byte) string { return "" }
 func BytesDigest(b []byte) string { return "" }
 
 func Name(salt, seed []byte, name string, out []byte) {}
+
+func KeepSource(importPath, name string, content []byte) {}
